@@ -11,6 +11,6 @@ if [ ! -d .pydeps/mpmath ]; then
 fi
 /venv/bin/python tools/regen.py
 cd lean
-lake build Model Gen Proofs Props Driver 2>&1 | grep -v '^trace' | tail -15
+lake build Model Gen Proofs Props Driver Audit 2>&1 | grep -v '^trace' | tail -15
 # one model driver per property (a generated model that no longer builds only affects its own checks)
 lake build $(grep -o 'drv_C[0-9]*' lakefile.toml | sort -u) 2>&1 | grep -v '^trace' | tail -5
